@@ -126,9 +126,26 @@ def runs(mask):
     return out
 
 
+SEG_ORDER_RNG = None   # when set: segment records (and their data, in the same order) are emitted in shuffled order
+
+
+def encode_block_unsorted_segments(spec, rng) -> bytes:
+    """same content, same layout, but the segment records of every run-length coded track in another order
+    (the layout fixes each record and that the data follow in table order, not that the table is sorted)"""
+    global SEG_ORDER_RNG
+    SEG_ORDER_RNG = rng
+    try:
+        return encode_block(spec)
+    finally:
+        SEG_ORDER_RNG = None
+
+
 def _enc_rle(w: W, frames, per_frame):
     """segment table + data of one run-length coded track. frames: list of list-of-float | None"""
     segs = runs([f is not None for f in frames])
+    if SEG_ORDER_RNG is not None and len(segs) > 1:
+        segs = list(segs)
+        SEG_ORDER_RNG.shuffle(segs)
     w.i32(len(segs))
     w.zeros(4)
     for s, n in segs:
